@@ -4,13 +4,14 @@
 #   builds demo.cpp against the changed and the unchanged tree (must fail / must pass). Appends the outcome to meta.json.
 ID=$1; N=$2; D=/verif/seeded/$ID/$N; W=v_$N
 rm -rf /tmp/seed/$W; /tmp/seedkit/seednew.sh $W >/dev/null
+cp $D/demo.cpp /tmp/seed/$W/demo.cpp
 ( cd /tmp/seed/$W/repo && git apply $D/patch.diff ) || { echo "$N: patch does not apply"; exit 2; }
 /tmp/seedkit/seedrun.sh $W -- cmake --build /repo/_build -j8 --target test_bitcoin > /tmp/seed/$W/build.log 2>&1; B=$?
 /tmp/seedkit/seedrun.sh $W -- ctest --test-dir /repo/_build -j8 --timeout 900 > /tmp/seed/$W/ctest.log 2>&1
 T=$(grep -E "tests passed|tests failed" /tmp/seed/$W/ctest.log | tail -1)
-/tmp/seedkit/seedrun.sh $W -- /tmp/seedkit/build_demo.sh $D/demo.cpp /tmp/seed/$W/demo_mod > /tmp/seed/$W/demo_build.log 2>&1
+/tmp/seedkit/seedrun.sh $W -- /tmp/seedkit/build_demo.sh /tmp/seed/$W/demo.cpp /tmp/seed/$W/demo_mod > /tmp/seed/$W/demo_build.log 2>&1
 /tmp/seedkit/seedrun.sh $W -- /tmp/seed/$W/demo_mod > /tmp/seed/$W/demo_mod.log 2>&1; RM=$?
-/tmp/seedkit/seedrun.sh $W --clean -- /tmp/seedkit/build_demo.sh $D/demo.cpp /tmp/seed/$W/demo_clean >> /tmp/seed/$W/demo_build.log 2>&1
+/tmp/seedkit/seedrun.sh $W --clean -- /tmp/seedkit/build_demo.sh /tmp/seed/$W/demo.cpp /tmp/seed/$W/demo_clean >> /tmp/seed/$W/demo_build.log 2>&1
 /tmp/seedkit/seedrun.sh $W --clean -- /tmp/seed/$W/demo_clean > /tmp/seed/$W/demo_clean.log 2>&1; RC=$?
 echo "$N: build_rc=$B tests=[$T] demo_with_change_rc=$RM demo_without_change_rc=$RC"
 python3 - "$D" "$B" "$T" "$RM" "$RC" <<'PY'
